@@ -2,7 +2,7 @@
 import json
 
 from .. import x as X
-from .storebase import StoreProfile, gen_search, JUNK_KINDS
+from .storebase import StoreProfile, gen_search, near_miss, JUNK_KINDS
 
 
 def answer(obs):
@@ -65,7 +65,14 @@ class FindersProfile(StoreProfile):
             b2 = gen_sid(rng, m, self.vocab(run), t, run.scratch.get("value_pool"), reuse=0.6)
             base = b2 or base
         simple = rng.random() < 0.4
-        s, feats = gen_search(rng, m, self.vocab(run), base, simple=simple, allow_last=run.params["last"])
+        keep = ()
+        if rng.random() < 0.15:
+            nb, idx = near_miss(rng, m, ents)
+            if nb:
+                base, keep = nb, (idx,)
+                run.probes["near_miss_searches"] += 1
+        s, feats = gen_search(rng, m, self.vocab(run), base, simple=simple, allow_last=run.params["last"], keep=keep,
+                              allow_dstar=not keep)
         return {"op": "search", "s": s, "feats": sorted(feats)}
 
     # ------------------------------------------------------------------ oracles
